@@ -13,7 +13,8 @@ use crate::src::Src;
 pub struct C15;
 
 const NAMES: &[&str] = &["a", "ab", "a_b", "b", "a_b_c", "b_c", "c", "b__c", "a_b__c", "a__b_c", "_a_b", "a_b_"];
-const HELPS: &[&str] = &["h", "hh", "h\u{ff}", "é", "h h"];
+// (help texts that are also label names of the pool, bare and with the '$' that marks variable labels in the dimension hash)
+const HELPS: &[&str] = &["h", "hh", "h\u{ff}", "é", "h h", "a", "b", "ab", "$a", "$b", "A"];
 // (upper-case and underscore names: byte order, the order of `str`, differs from case-folded and from "alphabetical" order)
 const LNAMES: &[&str] = &["a", "b", "ab", "ba", "c", "A", "B", "Ab", "aB", "_", "a_", "Z"];
 const VALUES: &[&str] = &["", "a", "b", "ab", "ba", "é", "a\u{ff}", "\u{ff}"];
